@@ -294,8 +294,29 @@ func planC10(tier string, root *simcore.RNG) *plan {
 						m := 3 + r.Intn(6)
 						sc.Sched.Policy, sc.Sched.Victim = "starve", fmt.Sprintf("site:%d:%d", m, r.Intn(m))
 					}
+					if r.Intn(3) == 0 {
+						sc.GCStormMs = 2 + r.Intn(6)
+					}
 					pl.scenarios = append(pl.scenarios, sc)
 				}
+			}
+		}
+		// any shape may keep state nobody advertised (a memo, a pool, a table that is
+		// trimmed): every light-weight entry gets one history that
+		// crosses 2^18 evaluations while the callers run, under memory pressure (a forced
+		// garbage collection every few milliseconds: finalizers run, pools are emptied)
+		if !stateful && !e.Heavy {
+			ths := []int{1 << 18}
+			if tier == "thorough" {
+				ths = []int{1 << 16, 1 << 18, 1 << 20}
+			}
+			for _, th := range ths {
+				r := root.Fork()
+				j := Job{ID: 1, Kind: "eval", Model: name, Callers: 3 + r.Intn(3), Points: 24 + r.Intn(16), CoordSeed: r.Uint64(), Warm: th - 8 - r.Intn(24), Fresh: true}
+				sc := &Scenario{Prop: "C10", Family: "eval", Seed: r.Uint64(), Groups: [][]Job{{j}},
+					Sites: map[string]uint32{"caller": 1, "auto": 1}, Sched: Sched{Policy: "uniform", Seed: r.Uint64()},
+					Env: Env{GOMAXPROCS: pick(r, []int{2, 4, 16}), CPUs: 16, Race: r.Intn(2) == 0}, Note: "threshold-history", GCStormMs: 2 + r.Intn(4)}
+				pl.scenarios = append(pl.scenarios, sc)
 			}
 		}
 		if ni%renderEvery == rot && !e.Heavy {
@@ -319,7 +340,7 @@ func planC10(tier string, root *simcore.RNG) *plan {
 	}
 	total, missing := auditConstructors()
 	pl.extra = map[string]any{"catalogue_entries": len(names), "exported_constructors_in_sdf_and_obj": total, "constructors_not_in_catalogue": missing}
-	pl.rule = "for every entry of the shape catalogue (every exported sdf/obj constructor returning SDF2/SDF3, incl. Cache2D, NewVoxelSDF3, Mesh2D/3D, Text2D, ImportTriMesh/ImportSTL, rotate/array wrappers, screws, all obj parts): (a) 2..4 simulated caller goroutines evaluate the shared shape over overlapping seeded point lists (repeats included), parked before every call and, for harness-built composites, at yielding wrappers on the leaves, i.e. inside the combinator's or cache's Evaluate; (b) for a rotating quarter of the entries (all in the thorough tier) the shape is rendered with NewMarchingCubesUniform under a seeded schedule and a freshly built reference instance is rendered afterwards; (c) many-points episodes (128..191 points per caller, automatic hooks at every synchronisation operation inside the library); (d) for wrappers with state (Cache2D, voxel tables) long sequential query histories (up to 600000 evaluations) before the callers start, and threshold histories that stop 8..31 evaluations short of a round number (2^8..2^18, 10^3..10^5; thorough to 2^20, 10^6) so that a size or read-count threshold is crossed by the concurrent callers, whose points are mostly new, under uniform/pct/burst/site-stall schedules. Built with -race; parking is invisible to the race detector (RaceDisable window), so program races are reported although the simulator runs the goroutines one at a time. Oracle: values bit-identical to sequential evaluation of a fresh instance / identical triangle sequence; no race report with an sdfx frame; no panic or runtime fault. Non-trivial = the scheduler had >= 2 choices at >= 1 step; distinct = trace hash."
+	pl.rule = "for every entry of the shape catalogue (every exported sdf/obj constructor returning SDF2/SDF3, incl. Cache2D, NewVoxelSDF3, Mesh2D/3D, Text2D, ImportTriMesh/ImportSTL, rotate/array wrappers, screws, all obj parts): (a) 2..4 simulated caller goroutines evaluate the shared shape over overlapping seeded point lists (repeats included), parked before every call and, for harness-built composites, at yielding wrappers on the leaves, i.e. inside the combinator's or cache's Evaluate; (b) for a rotating quarter of the entries (all in the thorough tier) the shape is rendered with NewMarchingCubesUniform under a seeded schedule and a freshly built reference instance is rendered afterwards; (c) many-points episodes (128..191 points per caller, automatic hooks at every synchronisation operation inside the library); (d) for wrappers with state (Cache2D, voxel tables) long sequential query histories (up to 600000 evaluations) before the callers start, and threshold histories that stop 8..31 evaluations short of a round number (2^8..2^18, 10^3..10^5; thorough to 2^20, 10^6) so that a size or read-count threshold is crossed by the concurrent callers, whose points are mostly new, under uniform/pct/burst/site-stall schedules; every light-weight entry gets one history crossing 2^18 evaluations under a forced garbage collection every few milliseconds. Built with -race; parking is invisible to the race detector (RaceDisable window), so program races are reported although the simulator runs the goroutines one at a time. Oracle: values bit-identical to sequential evaluation of a fresh instance / identical triangle sequence; no race report with an sdfx frame; no panic or runtime fault. Non-trivial = the scheduler had >= 2 choices at >= 1 step; distinct = trace hash."
 	pl.assume = []string{
 		"interleavings inside un-wrappable leaves (obj parts, primitives) are not explored at sub-call granularity; there the verdict rests on the happens-before race detector, whose shadow memory keeps only the last few accesses per word (misses possible, false reports not)",
 		"a race report counts only if at least one frame is in github.com/deadsy/sdfx; a report entirely inside the harness exits 2",
